@@ -406,7 +406,7 @@ func patClass(p string) string {
 
 func run(c *vf.Ctx) {
 	g := gitx.New(c.Scratch)
-	n := c.N(400, 8000)
+	n := c.N(400, 4000)
 	workers := 8
 	// one repository per worker, wiped between cases
 	roots := make(chan string, workers)
@@ -543,11 +543,11 @@ func run(c *vf.Ctx) {
 		}
 	})
 	c.Extra("git_invocations", gitx.Calls.Load())
-	c.Floor("cases compared with git check-ignore", c.Counter("git_check_ignore_calls"), c.N(380, 7600))
-	c.Floor("paths classified", c.Counter("paths_classified"), c.N(3000, 60000))
-	c.Floor("paths git reports as ignored", c.Counter("paths_ignored_by_git"), c.N(800, 16000))
+	c.Floor("cases compared with git check-ignore", c.Counter("git_check_ignore_calls"), c.N(380, 3800))
+	c.Floor("paths classified", c.Counter("paths_classified"), c.N(3000, 30000))
+	c.Floor("paths git reports as ignored", c.Counter("paths_ignored_by_git"), c.N(800, 8000))
 	c.Floor("distinct deciding pattern classes", c.SeenCount("deciding_pattern_classes"), c.N(40, 80))
-	c.Floor("status-level comparisons", c.Counter("status_compared"), c.N(30, 600))
+	c.Floor("status-level comparisons", c.Counter("status_compared"), c.N(30, 300))
 	c.Assume("reference is git 2.39.5: patterns with ** adjacent to a non-slash character are not generated (git < 2.52 mishandles them; the repository's own conformance test documents it)")
 	c.Assume("core.ignorecase is false and no global core.excludesfile exists (hermetic HOME)")
 	c.Assume("only paths that exist in the tree are queried, so isDir is what lstat says for both sides")
